@@ -15,7 +15,7 @@ func init() {
 		ID:          "C15",
 		Explanation: "Decided: (keyfor) in $newType every comparable kind installs a keyFor and exactly func/map/slice are marked non-comparable, arrays and structs inherit comparability from their parts; (inject) composite keys escape the escape character and then the separator of every sub-key before joining with that separator, 64-bit/complex keys join numbers, interface keys are discriminated by type identity (no display string reaches a key function); (ops) map literal, index, store and delete compute T.keyFor with the map's key type, entries are {k, v} on both sides, nil-map read/len/range/write arms exist. (contexts, shared with C07) keys and values are copied into the map on store and in map literals — a stored array or struct key that aliases the caller's variable changes under the map. NOT decided: behaviour over operation histories, range-with-deletion, float key formatting.",
 		Assumptions: []string{"String(number) never contains '$' or '\\\\'", "JavaScript Map preserves insertion order and compares string keys by value"},
-		Rules:       []RuleFunc{ruleC15Keyfor, ruleC15Inject, ruleC15Ops, ruleC09ID, ruleC07Contexts, ruleC15KeyConverted},
+		Rules:       []RuleFunc{ruleC15Keyfor, ruleC15Inject, ruleC15Ops, ruleC09ID, ruleC07Contexts, ruleC15KeyConverted, ruleStructComparable, ruleBlankFields},
 	})
 }
 
@@ -104,13 +104,8 @@ func ruleC15Keyfor(c *ctx.Ctx, r *core.Reporter) {
 		ok := strings.Contains(armSrc(arm), "typ.comparable = false")
 		r.Check(ok, "noncomparable:"+k, arm.Pos(), k+" values are not comparable: the arm sets typ.comparable = false (using one as an interface map key or in == panics)")
 	}
-	if arm := arms["$kindArray"]; arm != nil {
-		r.Check(strings.Contains(armSrc(arm), "typ.comparable = elem.comparable"), "comparable:array-inherits", arm.Pos(), "an array is comparable iff its element type is")
-	}
-	if arm := arms["$kindStruct"]; arm != nil {
-		src := armSrc(arm)
-		r.Check(strings.Contains(src, "!f.typ.comparable") && strings.Contains(src, "typ.comparable = false"), "comparable:struct-inherits", arm.Pos(), "a struct is comparable iff all its field types are")
-	}
+	// how arrays and structs derive their comparability is decided by C08.comparable (ruleStructComparable),
+	// which C15 evaluates as well
 	// the default of the generic part: typ.comparable = true assigned AFTER the switch would overwrite; it must precede init (assigned in $newType tail, init runs later)
 	tail := nt.N("body").Src()
 	r.Check(strings.Contains(tail, "typ.comparable = true;"), "comparable:default-true", nt.Pos(), "$newType defaults comparable to true (init, which runs later, lowers it)")
